@@ -4,8 +4,9 @@ C08 — Ambiguous input is rejected by default: duplicate names and invalid UTF-
 Property theorems only (proofs are in `JsonV.Lemmas.Dup*`).  They cover the mechanisms with which the library
 detects duplicate names — the struct `seenIdxs` bit set (`uintSet`), the coder namespace (`objectNamespace`,
 both representations and the switch between them) and the invalidation of namespaces after a failed call —
-for ALL sequences of operations.  The end-to-end statements over every target kind are kept as
-`def …_full : Prop` at the end and are validated by the harness (harness/c08.go), not proved.
+for ALL sequences of operations — and, over the L2/L3 model of slice C14, the end-to-end statement that a
+successful default Unmarshal implies a duplicate-free input tree.  What remains unproved is kept as
+`def …_full : Prop` at the end and is validated by the harness (harness/c08.go).
 
 `Gen.*` is regenerated from /repo on every run (Tie A): bodies of `uintSet64.has/set`, the `stateEntry` masks.
 -/
@@ -18,6 +19,10 @@ import JsonV.Lemmas.DupStruct
 import JsonV.Lemmas.DupPoison
 import JsonV.Gen.Straight
 import JsonV.Gen.Constants
+import JsonV.Gen.Lits
+import JsonV.Spec.Tree
+import JsonV.Model.Unmarshal
+import JsonV.Lemmas.MergeClauses
 
 namespace JsonV.Props.C08
 open JsonV JsonV.Model JsonV.Lemmas.Dup
@@ -34,9 +39,24 @@ theorem tie_lo (s : UintSet) (i : Nat) (hi : i < 64) :
     (s.insert i).1 = ⟨Gen.json_uintSet64_set s.lo (BitVec.ofNat 64 i), s.hi⟩ ∧
     (s.insert i).2 = !Gen.json_uintSet64_has s.lo (BitVec.ofNat 64 i) := by
   have e : (BitVec.ofNat 64 i).toNat = i := by simp [BitVec.toNat_ofNat]; omega
-  simp [UintSet.has, UintSet.insert, hi, tie_uintSet64_has, tie_uintSet64_set, e]
+  simp [UintSet.has, UintSet.insert, UintSet.wordBits, hi, tie_uintSet64_has, tie_uintSet64_set, e]
 
 example : (3 : Nat) < 64 := by decide
+
+/-- The thresholds of the model are the integer literals of `objectNamespace.insert`, in source order
+(`ns.length() > 64 || len(ns.allUnquotedNames) > 1024`); `reset` trims with the same two numbers.
+Editing a threshold in state.go breaks this theorem (not only the correspondence). -/
+theorem tie_thresholds :
+    Gen.jsontext_objectNamespace_insert_ints = [(nsCountThreshold : Int), (nsBytesThreshold : Int)] ∧
+    Gen.jsontext_objectNamespace_reset_ints = [0, 0, (nsCountThreshold : Int), (nsBytesThreshold : Int)] := by
+  decide
+
+/-- Every integer literal of `uintSet.has` and `uintSet.insert` is the word size of the model
+(`i < 64`, `i -= 64`, `i/64`, `i%64`), plus the `+1` of the growth step `iHi+1-len(s.hi)`. -/
+theorem tie_uintset_literals :
+    Gen.json_uintSet_has_ints = List.replicate 4 (UintSet.wordBits : Int) ∧
+    Gen.json_uintSet_insert_ints = List.replicate 4 (UintSet.wordBits : Int) ++ [1] := by
+  decide
 
 /-- The namespace bits of `stateEntry` used by the model are the regenerated masks. -/
 theorem tie_namespace_bits :
@@ -180,33 +200,87 @@ theorem poisoned (m : Machine) (maxDepth : Nat) (h : m.last.isActiveNamespace = 
 
 example : (Entry.disableNamespace Entry.typeObject).isActiveNamespace = false := by decide
 
-/-! ### Full end-to-end statements (NOT proved here; validated by harness/c08.go on the implementation)
+/-! ### End to end over the L2/L3 model of slice C14 (`Spec.JTree`, `Model.unm`)
 
-They quantify over the real `Unmarshal`/`Marshal` (parameters `unm`, `mar`: options → type → input → result),
-because the L3 model of `arshal*.go` is outside this slice.  `dupFree`/`utf8OK` stand for "no object at any depth
-has two names that are equal after unescaping or resolve to the same Go field / map key" and "well-formed UTF-8". -/
+`unm o T j prior` models `json.Unmarshal` under the DEFAULT options into a destination of type `T` holding `prior`
+(types: bool, ints, uints, float64, string, slices, arrays, map[string]T, pointers, structs with exact-name fields,
+`any`).  The tree `j` has names already unescaped, so "equal names" below means equal after unescaping. -/
+
+open JsonV.Spec in
+/-- Default options: a successful Unmarshal — into ANY modelled type, with ANY prior content of the destination —
+implies that no object anywhere in the input repeats a name.  "Anywhere" is literal: the model (like the
+library, which validates them with the coder namespaces) also checks the values of skipped unknown struct
+members, the surplus elements of a Go array, and values of the wrong JSON kind handed to string/number types,
+so `dupFree` speaks about the whole tree and not only about the part the type gives a destination to. -/
+theorem unm_no_dups (o : UOpts) (T : GoType) (j : JTree) (prior v : GoVal)
+    (h : unm o T j prior = .ok v) : j.dupFree = true :=
+  JsonV.Lemmas.Merge.unm_dupFree o T j prior v h
+
+open JsonV.Spec in
+example : unm {} (.map .any) (.obj [([0x61], .num [0x31])]) .nilMap =
+    .ok (.mapOf [([0x61], .ifaceOf (.float [0x31]))]) := by
+  simp [unm, objFold, unmAny, anyPrior, alookup, aset, GoType.zero]
+
+open JsonV.Spec in
+/-- Contrapositive: a repeated name at any depth (also inside a skipped member) makes the call fail. -/
+theorem unm_rejects_dup (o : UOpts) (T : GoType) (j : JTree) (prior : GoVal)
+    (h : j.dupFree = false) : ∃ e, unm o T j prior = .error e := by
+  cases hr : unm o T j prior with
+  | error e => exact ⟨e, rfl⟩
+  | ok v => rw [unm_no_dups o T j prior v hr] at h; cases h
+
+open JsonV.Spec in
+example : (JTree.obj [([0x7a], .obj [([0x61], .null), ([0x61], .null)])]).dupFree = false := by decide
+
+open JsonV.Spec in
+/-- One object level of `dupFree` is exactly the coder namespace: the member names, fed in order to a fresh
+`objectNamespace` (either representation, across the switch), are all accepted, and the member values are
+duplicate-free in turn. -/
+theorem dupFree_obj_namespace (ms : List (Bytes × JTree)) :
+    (JTree.obj ms).dupFree = true ↔
+      (Namespace.run Namespace.empty ((akeys ms).map Namespace.Op.ins)).2.all id = true ∧
+      ∀ n x, (n, x) ∈ ms → x.dupFree = true := by
+  rw [JsonV.Lemmas.Merge.dupFree_obj, object_accept_iff_nodup]
+
+/-! ### Full statements that remain unproved (validated by harness/c08.go on the implementation)
+
+What `unm_no_dups` above does NOT cover, and why:
+  * the model has no `AllowDuplicateNames` option (`UOpts` only has `arrayAnyLen`; `objFold` and `unmAnyM`
+    always check `seen`, skipped values are always checked with `dupFree`), so `permissive_eq` and `later_wins`
+    cannot even be stated about `Model.unm`; they are stated below about a hypothetical extension `unmAD` that
+    a later version of Model/Unmarshal.lean would have to provide (an `allowDup` flag that drops the three checks);
+  * names that differ as strings but resolve to the same destination (case-insensitive struct fields,
+    `"0"`/`"-0"` and `"1"`/`"1.0"` map keys, embedded fallbacks, raw `jsontext.Value` targets) are outside the
+    model's type universe (exact-name fields, string keys);
+  * the step from JSON text to `JTree` (unescaping, UTF-8 validation) belongs to the tokenizer slices.
+The text-level statements quantify over the real `Unmarshal`/`Marshal` as parameters. -/
+
+section FullModel
+open JsonV.Spec
+variable (unmAD : UOpts → GoType → JTree → GoVal → Except Err GoVal)
+
+/-- With AllowDuplicateNames nothing else changes: on duplicate-free input the result (value or error) is the default one. -/
+def permissive_eq_full : Prop :=
+  ∀ o T j p, j.dupFree = true → unmAD o T j p = unm o T j p
+
+/-- With AllowDuplicateNames a later member arrives as if in a second call: merge for objects, replace otherwise (C14). -/
+def later_wins_full : Prop :=
+  ∀ o T ms k x p, (JTree.obj ms).dupFree = true → x.dupFree = true →
+    unmAD o T (.obj (ms ++ [(k, x)])) p = unmChain o T [.obj ms, .obj [(k, x)]] p
+
+end FullModel
 
 section Full
 variable {T V G : Type}
-variable (unm : (allowDup allowBadUTF8 : Bool) → T → Bytes → Option V)
-variable (unmInto : (allowDup : Bool) → T → V → Bytes → Option V)
+variable (unmText : (allowDup allowBadUTF8 : Bool) → T → Bytes → Option V)
 variable (mar : (allowDup allowBadUTF8 : Bool) → G → Option Bytes)
-variable (dupFree : T → Bytes → Prop) (utf8OK noDupNames : Bytes → Prop)
-variable (splitDup : Bytes → Bytes × Bytes → Prop) (sanitize : Bytes → Bytes)
+variable (semDupFree : T → Bytes → Prop) (utf8OK noDupNames : Bytes → Prop)
+variable (sanitize : Bytes → Bytes)
 
-/-- Default options: whatever is accepted was unambiguous. -/
-def unm_no_dups_full : Prop :=
-  ∀ t b v, unm false false t b = some v → dupFree t b ∧ utf8OK b
-
-/-- The Allow* options differ in nothing else: on unambiguous input they change no result. -/
-def permissive_eq_full : Prop :=
-  ∀ t b ad au, dupFree t b → utf8OK b → unm ad au t b = unm false false t b
-
-/-- AllowDuplicateNames: a later member merges into / replaces the earlier one as if it had arrived in a
-second call (`splitDup b (b1, b2)`: `b1` is `b` without the later member, `b2` holds only the later member). -/
-def later_wins_full : Prop :=
-  ∀ t v0 b b1 b2, splitDup b (b1, b2) →
-    unmInto true t v0 b = (unmInto false t v0 b1).bind (fun v1 => unmInto false t v1 b2)
+/-- Default options, text level, every target kind: whatever is accepted had no two names that are equal after
+unescaping OR resolve to the same Go struct field / map key, and was well-formed UTF-8. -/
+def unm_no_semantic_dups_full : Prop :=
+  ∀ t b v, unmText false false t b = some v → semDupFree t b ∧ utf8OK b
 
 /-- Marshal never emits an object with duplicate names, nor ill-formed UTF-8, under default options. -/
 def marshal_no_dups_full : Prop :=
@@ -214,7 +288,7 @@ def marshal_no_dups_full : Prop :=
 
 /-- AllowInvalidUTF8 differs from the default only by one U+FFFD per ill-formed byte and the missing error. -/
 def utf8_only_diff_full : Prop :=
-  ∀ t b, unm false true t b = unm false false t (sanitize b)
+  ∀ t b, unmText false true t b = unmText false false t (sanitize b)
 
 end Full
 
